@@ -181,8 +181,13 @@ class Sample(object):
 
         # Find the small rest time (probably 0 hr)
         min_rest, To = min(enumerate(self.rest_times), key=lambda x: x[1])
-        # Find the activity at that time, and the decay rate
-        data = [(Ia[min_rest], LN2/a.Thalf_hrs) for a, Ia in self.activity.items()]
+        # Find the activity at that time, and the decay rate. Products with no
+        # activity at that time (none produced, or completely decayed) do not
+        # contribute to the total and would break the logs and exponentials below.
+        data = [(Ia[min_rest], LN2/a.Thalf_hrs) for a, Ia in self.activity.items()
+                if Ia[min_rest] > 0]
+        if not data:
+            return 0
         # Build functions for total activity at time T - target and its derivative
         # This will be zero when activity is at target
         f = lambda t: sum(Ia*exp(-La*(t-To)) for Ia, La in data) - target
